@@ -320,6 +320,76 @@ def make_layout_script(rng, name, kind):
     lines.append("tdrop")
     return f"=== {name} plan={plan} nkeys=40\n" + "\n".join(lines) + "\n"
 
+def make_table_fault_script(rng, name):
+    """C04 for HashTable: a destructor (of a rejected / overwritten / cleared element) or the caller's
+    predicate panics at its k-th call inside retain / extract_if / clear / drain / entry-insert on a
+    present key / clone / drop; afterwards the table is observed through every observer."""
+    plan = rng.choice(["seq", "mix", "zero", "lowpos"])
+    salt = rng.getrandbits(32)
+    lines = ["kind table-drop"] + [f"hash {k} {plan_hash(plan, k, rng, salt)}" for k in range(48)]
+    st = 0
+    for rnd in range(rng.choice([3, 4, 6])):
+        n = rng.choice([3, 7, 12, 20, 28])
+        lines.append("tclear")
+        for k in range(n):
+            st += 1
+            lines.append(f"tinsertunique {k} {st} {k}")
+        if rng.random() < 0.5:
+            for k in rng.sample(range(n), max(1, n // 3)):
+                lines.append(f"tfindentryremove {k} id {k}")
+        arm = rng.choice(["droppanic_nth", "droppanic_nth", "predpanic_nth"])
+        kth = rng.choice([0, 0, 1, 2, 3])
+        keep = [x for x in range(n) if rng.random() < rng.choice([0.0, 0.3, 0.7])]
+        if arm == "predpanic_nth":
+            op = rng.choice([f"tretain {rng.randrange(3)} " + " ".join(map(str, keep)), f"textractif {rng.choice([1, 3, 1000])} " + " ".join(map(str, keep))])
+        else:
+            st += 1
+            op = rng.choice([f"tretain {rng.randrange(3)} " + " ".join(map(str, keep)), "tclear", f"tdrain {rng.choice([0, 1, 1000])}",
+                             f"tentryinsert {rng.randrange(n)} {st} 5", "tclone", "tdrop", f"twithcap {rng.choice([0, 8])}"])
+        lines += [f"arm {arm} {kth}", op, "tlen", "titer"]
+        for k in rng.sample(range(n), min(n, 3)):
+            lines.append(f"tfind {k} id {k}")
+    lines.append("tdrop")
+    return f"=== {name} plan={plan} nkeys=48\n" + "\n".join(lines) + "\n"
+
+def make_tomb_shrink_script(rng, name, kind=None):
+    """C08 deterministically: a table filled to exact capacity under identity-like hashes, all but a few
+    elements removed one by one (every removal leaves a removed-slot marker, so capacity() falls to
+    len()), then shrink_to_fit / shrink_to(m): the allocation must come down to that of a fresh table."""
+    kind = kind or rng.choice(["table-plain", "table-drop", "table-6"])
+    lines = [f"kind {kind}"] + [f"hash {k} {plan_hash('seq', k, rng, 0)}" for k in range(120)]
+    st = 0
+    for n in [28, 56, 112]:
+        lines += ["tdrop", f"treserve {n}"]
+        for k in range(n):
+            st += 1
+            lines.append(f"tinsertunique {k} {st} {k}")
+        keepn = rng.choice([0, 1, 5])
+        for k in range(n - keepn):
+            lines.append(f"tfindentryremove {k} id {k}")
+        lines += ["tlen", "tcapacity", "tallocsize", rng.choice(["tshrinktofit", "tshrinktofit", f"tshrinkto {rng.choice([0, keepn, keepn + 1])}"]), "tcapacity", "tallocsize", "titer"]
+    return f"=== {name} plan=seq nkeys=120\n" + "\n".join(lines) + "\n"
+
+def make_chain_extract_script(rng, name, kind=None):
+    """C10 deterministically: one collision chain longer than a group in a 32-bucket table, two removals
+    (removed-slot markers, len() <= group width), then extract_if / retain taking an element from the
+    FIRST group: every element not selected must still be found afterwards."""
+    kind = kind or rng.choice(["table-plain", "table-drop"])
+    lines = [f"kind {kind}"] + [f"hash {k} 0" for k in range(40)]
+    st = 0
+    for n in [18, 20, 26]:
+        lines += ["tclear"]
+        for k in range(n):
+            st += 1
+            lines.append(f"tinsertunique {k} {st} {k}")
+        for k in rng.sample(range(1, 14), n - 16):
+            lines.append(f"tfindentryremove {k} id {k}")
+        lines.append(rng.choice(["textractif 1 0", "textractif 1000 0 14", "tretain 0 " + " ".join(str(k) for k in range(1, n))]))
+        lines += ["tlen", "titer"]
+        for k in range(n):
+            lines.append(f"tfind {k} id {k}")
+    return f"=== {name} plan=zero nkeys=40\n" + "\n".join(lines) + "\n"
+
 def make_zst_removal_script(rng, name, kind):
     """C10 deterministically for zero-sized (and 1-byte) elements: retain / extract_if / drain on tables
     whose elements sit in many different buckets (for a zero-sized type the bucket 'pointer' is its index)."""
@@ -332,7 +402,7 @@ def make_zst_removal_script(rng, name, kind):
         for k in range(n):
             st += 1
             lines.append(f"tinsertunique {k} {st} 0")
-        lines += ["tlen", op, "tlen", "titer", "tcapacity"]
+        lines += ["tlen", "tclone", "tlen", op, "tlen", "titer", "tcapacity", "tclone"]
         for k in range(min(n, 4)):
             lines.append(f"tfind {k} id {k}")
         lines += ["tclear"]
